@@ -260,3 +260,29 @@ Lemma eval_int_of_isZ s e z : isZ (eval s e) z -> eval_int s e = Some z.
 Proof.
   intros (q & E & H). unfold eval_int. rewrite E, (qint_comp _ _ H). apply qint_inject.
 Qed.
+
+(* exact integer powers (non-negative exponent) *)
+From Coq Require Import Qpower.
+Lemma isZ_pow s a b x y :
+  isZ (eval s a) x -> isZ (eval s b) y -> (0 <= y)%Z -> isZ (eval s (EBin BPow a b)) (x ^ y).
+Proof.
+  intros (qa & Ea & Ha) (qb & Eb & Hb) Hy. cbn [eval]. rewrite Ea, Eb. cbn [eval_bin].
+  rewrite (qint_comp _ _ Hb), qint_inject.
+  assert (Hn : (y <? 0)%Z = false) by (apply Z.ltb_ge; exact Hy).
+  rewrite Hn, andb_false_r. eexists. split; [reflexivity|].
+  rewrite Qred_correct, Ha. symmetry. apply Zpower_Qpower. exact Hy.
+Qed.
+
+(* a negative exponent is the exact reciprocal: x ** -k = 1 / x ** k  (x <> 0) *)
+Lemma eval_pow_neg s a b x k :
+  isZ (eval s a) x -> isZ (eval s b) (- Z.pos k) -> x <> 0%Z ->
+  exists q, eval s (EBin BPow a b) = Some q /\ q == / inject_Z (x ^ Z.pos k).
+Proof.
+  intros (qa & Ea & Ha) (qb & Eb & Hb) Hx. cbn [eval]. rewrite Ea, Eb. cbn [eval_bin].
+  rewrite (qint_comp _ _ Hb), qint_inject.
+  assert (Hz : qzero qa = false).
+  { rewrite (qzero_comp _ _ Ha), qzero_inject. apply Z.eqb_neq. exact Hx. }
+  rewrite Hz. cbn [andb]. eexists. split; [reflexivity|].
+  rewrite Qred_correct, Ha. change (- Z.pos k)%Z with (Z.neg k). cbn [Qpower].
+  rewrite (Zpower_Qpower x (Z.pos k)) by discriminate. reflexivity.
+Qed.
